@@ -716,7 +716,9 @@ pub fn gen_user_meta(rng: &mut Rng) -> Vec<(String, Vec<u8>)> {
 	};
 	let mut out: Vec<(String, Vec<u8>)> = vec![];
 	for i in 0..n {
-		let k = match rng.below(4) {
+		let k = match rng.below(if n > 8 { 4 } else { 5 }) {
+			// a key of several hundred bytes, or longer than the reader's 8 KiB buffer
+			4 => format!("long.{}.{i}", "k".repeat(*rng.pick(&[64usize, 300, 8200]))),
 			0 => format!("user.k{i}"),
 			1 => format!("k{i}é"),
 			2 => format!("{i}"),
@@ -727,7 +729,7 @@ pub fn gen_user_meta(rng: &mut Rng) -> Vec<(String, Vec<u8>)> {
 			0 => vec![],
 			1 => vec![0xff, 0xfe, 0x00, 0x80],
 			4 => {
-				let n = *rng.pick(&[63usize, 64, 127, 128, 8191, 8192, 8193, 20_000]);
+				let n = *rng.pick(&[63usize, 64, 127, 128, 8191, 8192, 8193, 20_000, 65_536, 65_537, 70_000]);
 				rng.bytes(n)
 			}
 			5 => "valeur \u{e9}\u{20ac} \"q\" \\".as_bytes().to_vec(),
